@@ -843,6 +843,12 @@ def cow_into_owned(I, a, n):
     return clone_val(I, unbox(c.fields[0])) if isinstance(c, EnumV) else clone_val(I, c)
 
 
+@model(r"^std::borrow::Cow::(Owned|Borrowed)$")
+def cow_ctor(I, a, n):
+    # Cow::Borrowed / Cow::Owned used as a function (e.g. `.map(Cow::Borrowed)`)
+    return EnumV("Cow", 0 if meth(n) == "Borrowed" else 1, [a[0]])
+
+
 @model(r"^<std::borrow::Cow as std::convert::From>::from$")
 def cow_from(I, a, n):
     v = a[0]
